@@ -128,6 +128,10 @@ def check_insertions(name, data, ref, edits):
     return v
 
 
+MANY_COUNTS = list(range(2, 41)) + [63, 64, 65, 100, 127, 128, 129, 255,
+                                     256, 257, 1000, 5000]
+
+
 def plan(tier):
     fs = files()
     units = []
@@ -135,6 +139,7 @@ def plan(tier):
         nh = len(header_spans(data))
         for hi in range(nh):
             units.append(('single', fi, hi))
+            units.append(('many', fi, hi))
         if tier == 'thorough':
             for hi in range(nh):
                 units.append(('pair', fi, hi))
@@ -198,6 +203,24 @@ def run_unit(unit, tier):
                     'example': repr(insert(data, spans[hi], 0, 'Length',
                                            '-3')[spans[hi][0]:
                                                  spans[hi][1] + 12])}, 1)
+    elif kind == 'many':
+        # N unknown options at once on one header (total option count is a
+        # dimension of its own): every N up to 40 and boundary counts
+        for n in MANY_COUNTS:
+            for layout in ('front', 'end', 'spread'):
+                edits = []
+                for i in range(n):
+                    key = 'k%d' % i if i % 3 else KEYS[i % len(KEYS)] + \
+                        ('%d' % i if i >= len(KEYS) else '')
+                    value = VALUES[i % len(VALUES)]
+                    position = {'front': 0, 'end': npos - 1,
+                                'spread': i % npos}[layout]
+                    edits.append((hi, position, key, value))
+                if len(set(e[2] for e in edits)) != n:
+                    continue
+                one(edits, True)
+        acc.sample({'file': name, 'header_index': hi,
+                    'many_counts': MANY_COUNTS}, 1)
     else:
         k2 = ['x', 'Length', 'xlength', 'line-endings']
         v2 = ['v', '-3', 'utf-16', '007']
